@@ -672,6 +672,13 @@ theorem tableIsSubsetOf_of_routeEquiv (a b : List Entry) (hw : WellFormed a) (ho
     (h : RouteEquiv a b) : tableIsSubsetOf a b = true :=
   subset_complete hw ho (routeEquiv_routeSame h)
 
+/-- **routeSame_oracle.** How the check decides `RouteSame` on the code's answers: it is
+`RouteEquiv` against `b` with every source direction listed, hence decided by the proved oracle
+`routeEquivBrute` (sources are bit sets below 2^25). -/
+theorem routeSame_oracle (a b : List Entry) (h : ∀ e ∈ a, e.sources < 2 ^ 25) :
+    RouteSame a b ↔ routeEquivBrute a (fullSources b) = none := by
+  rw [oracle_decides]; exact routeSame_iff_fullSources a b h
+
 /-- **repo oracle passes on the minimisers.** The assertion used by the repository's minimiser
 tests, `table_is_subset_of(table, minimise(table))`, is a consequence of the proved `RouteEquiv`
 for every well-formed orthogonal table with listed sources and any method list. -/
@@ -808,6 +815,25 @@ theorem orderedCovering_userAliases (T : List Entry) (target : Option Nat) (A : 
   intro k o ho
   rw [← lookup_sortTable hg k] at ho
   exact inv_routeEquiv _ _ _ h1 k o ho
+
+/-- **userAliases_precondition_needed.**  Without `AliasCover` the conclusion can fail:
+`T = [101 -> E, XX1 -> N, XX1 -> E]` (sorted by generality) with the dictionary
+`{XX1: {X00}}` - the listed alias does not cover `XX1` - makes the down-check blind for the two
+`XX1` entries; `ordered_covering` merges `101` with the *second* `XX1` entry and inserts the result
+above the first one: key `001` went N and now goes E.  (Replayed on the real code by the harness.) -/
+theorem userAliases_precondition_needed :
+    let T : List Entry := [⟨1, 5#32, 7#32, 2 ^ 24⟩, ⟨4, 1#32, 1#32, 2 ^ 24⟩, ⟨1, 1#32, 1#32, 2 ^ 24⟩]
+    let A : Aliases := [((1#32, 1#32), [(0#32, 3#32)])]
+    let T' : List Entry := [⟨1, 1#32, 1#32, 2 ^ 24⟩, ⟨4, 1#32, 1#32, 2 ^ 24⟩]
+    SortedGen T ∧ ¬ AliasCover (sortTable T) A ∧
+      (∃ A', orderedCovering T none A true = .ok (T', A')) ∧ ¬ RouteEquiv T T' := by
+  refine ⟨by unfold SortedGen; decide, ?_, ⟨_, by rfl⟩, ?_⟩
+  · intro h
+    have := (aliasOkBrute_none_iff' _ _).mpr h
+    revert this; decide
+  · intro h
+    have := (oracle_decides _ _).mpr h
+    revert this; decide
 
 /-- non-vacuity: a dictionary that splits `000X` into its two halves is valid, one that lists only
 one half is not -/
